@@ -32,7 +32,7 @@ from vf import *
 LEVEL = "model_checking"
 META = {
     "technique": "TLA+ models of thin-pack completion and of the pack/index writer checked by TLC (offset/distance invariants, exactly-once resolution under every interleaving, no half-written pair after faults); TLC-enumerated thin-pack shapes rendered as real packs and stored by gix-pack; stored packs parsed and judged by TLC trace specs; git index-pack as evaluator and auditor",
-    "note": "Shapes: <= 3 entries (blobs), toy lengths in the model, real lengths judged in the trace. git-made packs: seeded fast-import histories (a few hundred objects). SHA-1, zlib and CRC32 are uninterpreted (hashlib/zlib/git supply values). Real thread schedules are observed, not enumerated (the model covers interleavings). Packs > 2 GiB, sha256 and index v1 are not covered. Without a base lookup REF_DELTA entries are documented as unsupported (index::File::write_data_iter_to_stream docs): judged as 'must be rejected cleanly'.",
+    "note": "Shapes: <= 3 entries (blobs), toy lengths in the model, real lengths judged in the trace. git-made packs: seeded fast-import histories (20-250 objects). SHA-1, zlib and CRC32 are uninterpreted (hashlib/zlib/git supply values). Real thread schedules are observed, not enumerated (the model covers interleavings). Packs > 2 GiB, sha256 and index v1 are not covered. Without a base lookup REF_DELTA entries are documented as unsupported (index::File::write_data_iter_to_stream docs): judged as 'must be rejected cleanly'.",
 }
 
 TYPE_NAMES = {1: "commit", 2: "tree", 3: "blob", 4: "tag"}
@@ -252,7 +252,7 @@ def run_shapes(ctx, binary, cases, n_audit):
         rec = {"kind": "shape", "case": {"shape": c, "seed": ctx.seed, "index": k}, "shape_text": shape_text(c),
                "inpack_ref_base": any(e["kind"] == "ref" and e["base"].startswith("p") for e in c["entries"])}
         if "got" not in r:
-            ctx.violation(dict(rec, classes=["crash"], what="storing the pack panicked/hung", result=r))
+            ctx.violation(dict(rec, classes=["crash"], what="storing the pack panicked/hung", result=r, panic=str(r.get("panic", ""))[:60]))
             continue
         g = r["got"]
         inp = parse_pack(pack)
@@ -366,14 +366,14 @@ def judge_idx(ctx, events, owners):
 
 
 # ------------------------------------------------------------------ git-made packs (binding B)
-def make_history(ctx, seed, tag):
+def make_history(ctx, seed, tag, scale=1):
     """src repository with a seeded history; recv = the state after the first half (the receiver)"""
     rng = random.Random(seed)
     src = os.path.join(ctx.work, "src-%s.git" % tag)
     recv = os.path.join(ctx.work, "recv-%s.git" % tag)
     git(["init", "-q", "--bare", src], check=True)
-    files = {"f%d.txt" % i: ["line %d of file %d %s" % (j, i, "x" * rng.randint(0, 30)) for j in range(rng.randint(40, 120))] for i in range(rng.randint(3, 6))}
-    ncommits = rng.randint(6, 12)
+    files = {"f%d.txt" % i: ["line %d of file %d %s" % (j, i, "x" * rng.randint(0, 30)) for j in range(rng.randint(40, 120))] for i in range(rng.randint(3, 6) * scale)}
+    ncommits = rng.randint(6, 12) * scale
     half = ncommits // 2
 
     def stream(lo, hi, first):
@@ -419,11 +419,16 @@ def pack_objects(src, revs, thin, ofs):
 def run_gitmade(ctx, binary, seeds, thread_sets, n_trunc, n_flips):
     stores, faults = [], []      # (record, harness case, context)
     for s in seeds:
-        src, recv, base, tip, recv_ids = make_history(ctx, s, "s%d" % s)
+        src, recv, base, tip, recv_ids = make_history(ctx, s, "s%d" % s, 3 if ctx.thorough and s % 2 == 0 else 1)
         variants = [("full-ofs", [tip], False, True), ("full-ref", [tip], False, False),
                     ("thin-ofs", [tip, "^" + base], True, True), ("thin-ref", [tip, "^" + base], True, False)]
+        variants.append(("full-ofs-v3", [tip], False, True))
         for (vname, revs, thin, ofs) in variants:
             data = pack_objects(src, revs, thin, ofs)
+            if vname.endswith("-v3"):
+                # pack version 3 has the same layout as version 2 and git reads both
+                body = data[:4] + struct.pack(">I", 3) + data[8:-20]
+                data = body + hashlib.sha1(body).digest()
             pp = os.path.join(ctx.work, "git-%d-%s.pack" % (s, vname))
             with open(pp, "wb") as f:
                 f.write(data)
@@ -447,7 +452,7 @@ def run_gitmade(ctx, binary, seeds, thread_sets, n_trunc, n_flips):
                     d = fresh_dir(ctx, "git-%d-%s-%s-%d" % (s, vname, lookup, t))
                     hc = {"op": "write", "pack": pp, "dir": d, "threads": t, "read": True,
                           "lookup": os.path.join(recv, "objects") if lookup == "odb" else "none", "mem": []}
-                    rec = {"kind": "gitmade", "case": {"seed": s, "variant": vname, "lookup": lookup, "threads": t}, "info": info,
+                    rec = {"kind": "gitmade", "case": {"seed": s, "variant": vname, "lookup": lookup, "threads": t, "thorough": ctx.thorough}, "info": info,
                            "classes_hint": [vname, lookup], "inpack_ref_base": inpack_ref}
                     stores.append((rec, hc, {"data": data, "entries": entries, "in_ids": in_ids, "want": want, "want_idx": want_idx_bytes,
                                              "thin": thin, "has_ref": has_ref, "recv_ids": recv_ids, "dir": d, "lookup": lookup}))
@@ -460,10 +465,13 @@ def run_gitmade(ctx, binary, seeds, thread_sets, n_trunc, n_flips):
                     cuts.update({b - 1, b, b + 1})
                 muts = [("trunc", c) for c in sorted(cuts) if 0 < c < len(data)]
                 muts += [("flip", rng.randrange(len(data))) for _ in range(n_flips)]
+                muts.append(("version", 7))
                 for kind, posn in muts:
                     bad = bytearray(data)
                     if kind == "trunc":
                         bad = bad[:posn]
+                    elif kind == "version":
+                        bad[7] = 3
                     else:
                         bad[posn] ^= 1 << rng.randrange(8)
                     bp = os.path.join(ctx.work, "bad-%d-%s-%s-%d.pack" % (s, vname, kind, posn))
@@ -471,13 +479,14 @@ def run_gitmade(ctx, binary, seeds, thread_sets, n_trunc, n_flips):
                         f.write(bytes(bad))
                     d = fresh_dir(ctx, "bad-%d-%s-%s-%d" % (s, vname, kind, posn))
                     hc = {"op": "write", "pack": bp, "dir": d, "threads": 2, "read": False, "lookup": os.path.join(recv, "objects"), "mem": []}
-                    rec = {"kind": "fault", "case": {"seed": s, "variant": vname, "mutation": kind, "at": posn}, "classes_hint": [kind]}
+                    rec = {"kind": "fault", "case": {"seed": s, "variant": vname, "mutation": kind, "at": posn, "n_trunc": n_trunc, "n_flips": n_flips,
+                                                     "thorough": ctx.thorough}, "classes_hint": [kind]}
                     faults.append((rec, hc, {"dir": d, "path": bp, "recv": recv, "thin": thin}))
     results = ctx.harness(binary, [h for (_r, h, _c) in stores] + [h for (_r, h, _c) in faults], timeout=3000)
     idx_events, owners, thin_events, thin_owners = [], [], [], []
     for (rec, hc, cx), r in zip(stores, results[:len(stores)]):
         if "got" not in r:
-            ctx.violation(dict(rec, classes=["crash"], what="storing the pack panicked/hung", result=r))
+            ctx.violation(dict(rec, classes=["crash"], what="storing the pack panicked/hung", result=r, panic=str(r.get("panic", ""))[:60]))
             continue
         g = r["got"]
         after = listing(cx["dir"])
@@ -513,7 +522,7 @@ def run_gitmade(ctx, binary, seeds, thread_sets, n_trunc, n_flips):
     n_git_rejects = 0
     for k, ((rec, hc, cx), r) in enumerate(zip(faults, results[len(stores):])):
         if "got" not in r:
-            ctx.violation(dict(rec, classes=["crash"], what="storing a corrupted stream panicked/hung", result=r))
+            ctx.violation(dict(rec, classes=["crash"], what="storing a corrupted stream panicked/hung", result=r, panic=str(r.get("panic", ""))[:60]))
             continue
         idx_events.append({"kind": "fault", "ok": r["got"]["ok"], "before": ["pack-old.pack"], "after": listing(cx["dir"])})
         owners.append(rec)
@@ -568,7 +577,7 @@ def run(ctx):
     run_gitmade(ctx, binary, seeds, [1, 2, 3, 8, 16] if ctx.thorough else [1, 4, 16], 6 if not ctx.thorough else 40, 12 if not ctx.thorough else 200)
     classes = {}
     for v in ctx.violations:
-        k = "%s %s inpack_ref_base=%s %s" % (v["kind"], "/".join(v.get("classes", [])), v.get("inpack_ref_base"), (v.get("err") or "")[:60])
+        k = "%s %s inpack_ref_base=%s %s" % (v["kind"], "/".join(v.get("classes", [])), v.get("inpack_ref_base"), (v.get("err") or v.get("panic") or "")[:60])
         classes[k] = classes.get(k, 0) + 1
     ctx.cov["violation_classes"] = classes
     if classes:
@@ -595,4 +604,6 @@ def replay(ctx, rec):
             raise ToolError("replay: shape not in the generator's space")
         run_shapes(ctx, binary, cases, 1)
     else:
-        run_gitmade(ctx, binary, [c["seed"]], [c.get("threads", 2)] if rec["kind"] == "gitmade" else [1], 40, 200)
+        if c.get("thorough"):
+            ctx.tier = "thorough"      # the size of the seeded history depends on the tier
+        run_gitmade(ctx, binary, [c["seed"]], [c.get("threads", 2)] if rec["kind"] == "gitmade" else [1], c.get("n_trunc", 6), c.get("n_flips", 12))
